@@ -93,6 +93,11 @@ CLAIMED = {
    note="Partial by construction: Oniguruma is not modelled; the Coq side contributes the verified oracle and the scoping rule. Trusted: Coq kernel, extraction, harness, the per-syntax printers in props/c17.py.",
    technique="Coq proof (Brzozowski derivatives = denotational language) used as a verified oracle + differential correspondence",
    design="5 C17"),
+ "C16": dict(
+   text="Coq theorems about a transcription of FormatStringParser and Printf::print with escape and directive tables regenerated from printf.rs: for every format string of the documented language (verbatim characters incl. multi-byte, the escapes, \\NNN, \\c, %%, directives with optional '-' and width) the output is the reference rendering - each escape its character, each directive its padded value, everything else verbatim, nothing appended; padding is blanks only, on the documented side, at least WIDTH characters, never truncating. The path-valued directives are an executable model over PathModel compared with the implementation for every spelling of the starting point; numeric directives come from the record C13 selects. One known finding (%H below a starting point spelled with a trailing slash).",
+   note="Trusted: Coq kernel, extraction, harness, table translator; directive values are oracles of the renderer theorem (validated separately); time/user-name directives not covered.",
+   technique="Coq proof (parse-of-print = reference rendering, by induction with a literal accumulator) + differential correspondence",
+   design="5 C16"),
 }
 ALL = ["C%02d" % i for i in range(1, 21)]
 def main():
